@@ -706,8 +706,17 @@ pub fn run_histories(out: &mut Out, rng: &mut Rng, tier: Tier, mask: u64) {
         let mut hist = History { pages: Vec::new() };
         let mut env = Env::begin(out, kind, phys, seed, base_phys, mask);
         out.input_class(&format!("history:{:?}", match kind { MapperKind::Recursive(_) => MapperKind::Recursive(0), k => k }));
+        // a clean-up call is repeated immediately every other time (idempotence: the second run must free nothing)
+        let mut repeat: Option<Op> = None;
         for _ in 0..nops {
-            let mut op = gen_op(rng, &uni, &mut hist, &canaries);
+            let repeated = repeat.is_some();
+            let mut op = match repeat.take() {
+                Some(o) => o,
+                None => gen_op(rng, &uni, &mut hist, &canaries),
+            };
+            if op.opcode >= 9 && !repeated && rng.chance(1, 2) {
+                repeat = Some(Op { opcode: op.opcode, szc: op.szc, page: op.page, frame: op.frame, flags: op.flags, pflags: op.pflags });
+            }
             if let MapperKind::Recursive(r) = kind {
                 while op_touches_slot(&op, r) {
                     op = gen_op(rng, &uni, &mut hist, &canaries);
